@@ -96,8 +96,35 @@ Definition memoize (c : ctx_table) (n : name) : option name :=
 
 (* MinidumpContextValidity; Some carries a HashSet: the list is its iteration order *)
 Inductive validity := VAll | VSome (s : list name).
+(* a condition over the validity set: `which.contains("a")` / `which.contains(reg)` combined with && || ! *)
+Fixpoint strip_prefix (p x : name) : option name :=
+  match p, x with
+  | [], _ => Some x
+  | a :: p', b :: x' => if a =? b then strip_prefix p' x' else None
+  | _ :: _, [] => None
+  end.
+Fixpoint bset (n : name) (s : list name) (b : bexp) : bool :=
+  match b with
+  | BLit t => t
+  | BVar x => if name_eqb x v_contains then existsb (name_eqb n) s
+              else match strip_prefix has_prefix x with Some a => existsb (name_eqb a) s | None => false end
+  | BAnd x y => bset n s x && bset n s y
+  | BOr x y => bset n s x || bset n s y
+  | BNot x => negb (bset n s x)
+  | BEq _ _ | BNe _ _ => false
+  end.
+(* the names a condition consults when it is a plain disjunction of which.contains("a") tests *)
+Fixpoint disj_alts (b : bexp) : option (list name) :=
+  match b with
+  | BVar x => match strip_prefix has_prefix x with Some a => Some [a] | None => None end
+  | BOr x y => match disj_alts x, disj_alts y with Some l, Some r => Some (l ++ r) | _, _ => None end
+  | _ => None
+  end.
 Definition alts_of (c : ctx_table) (n : name) : list name :=
-  match find_arm n (ct_groups c) with Some alts => alts | None => [n] end.
+  match find_arm n (ct_groups c) with
+  | Some b => match disj_alts b with Some l => l | None => [] end
+  | None => [n]
+  end.
 (* a condition over pure calls only (no field is read): the calls' results are the environment;
    a comparison of integer expressions has no meaning here (the translator's type checker never
    produces one in these positions, the checker demands the plain call) *)
@@ -120,7 +147,7 @@ Definition is_valid (c : ctx_table) (n : name) (v : validity) : bool :=
   match v with
   | VAll => bpure [(v_memo, is_some (memoize c n))] (ct_valid_all c)
   | VSome s => match find_arm n (ct_groups c) with
-               | Some alts => existsb (fun a => mem a s) alts
+               | Some b => bset n s b
                | None => bpure [(v_contains, mem n s)] (ct_valid_default c)
                end
   end.
